@@ -5,13 +5,21 @@ from .common import *
 UTM = 'UserTrackingManager'
 
 
+def is_zero_flag(e: ast.AST) -> bool:
+    """`TrackingFlag(0)`, `0`, or a module-level constant bound to one of them."""
+    if unparse(e) in ('TrackingFlag(0)', '0'):
+        return True
+    if isinstance(e, ast.Name):
+        d = resolve_named_constant(e)
+        return d is not None and unparse(d) in ('TrackingFlag(0)', '0')
+    return False
+
+
 def flag_zero_test(e: ast.AST, name: str) -> Optional[bool]:
-    """For `X == TrackingFlag(0)` / `not X` style tests on the expression text
-    `name`: return True if the (positive) atom means "X is empty"."""
+    """For `X == TrackingFlag(0)` style tests on the expression text `name`: return True if the (positive) atom means "X is empty"."""
     a = cmp_atom(e)
     if a and a[0] == 'eq':
-        l, r = unparse(a[1]), unparse(a[2])
-        if name in (l, r) and ('TrackingFlag(0)' in (l, r) or '0' in (l, r)):
+        if (unparse(a[1]) == name and is_zero_flag(a[2])) or (unparse(a[2]) == name and is_zero_flag(a[1])):
             return True
     return None
 
@@ -45,42 +53,54 @@ def run(eng: Engine, ck: Check):
         ck.ob('R-C15-OWNERS', owner, owner.node, f'{owner.name} names the tracked user', ok, '', construct=f'{owner.name} user')
 
     # ---- R-C15-EDGES
+    # names the worker uses (discovered, not assumed): the tracked-user parameter, the request taken from its queue, the snapshot
+    # of the flags, the "this is a retry" local
+    TU = [p_ for p_ in tt.params if p_ != 'self'][0]
+    rq = pfind(tt.node, f'$r = await {TU}.queue.get()')
+    if len(rq) != 1:
+        raise AnalysisError('R-C15-EDGES: the worker no longer takes its requests with `x = await <tracked user>.queue.get()`: idiom not recognised')
+    REQ = rq[0][1]['r']
+    pv = pfind(tt.node, f'$p = {TU}.flags')
+    PREV = pv[0][1]['p'] if len(pv) == 1 else 'previous_flags'
+    FLAGS = f'{TU}.flags'
+    sa0 = single_assignments(tt)
+    RETRY = next((k_ for k_, v_ in sa0.items() if v_ is not None and flag_zero_test(v_, f'{REQ}.flag')), None)
     unt = calls_on(tt.node, '_request_untracking')
     trk = calls_on(tt.node, '_request_tracking')
     ck.floor('R-C15-EDGES', min(len(unt), len(trk)), 1)
     for c in unt:
         gs = eng.guards_at(tt, c)
-        empty_now = any(pol and flag_zero_test(e, 'tracked_user.flags') for e, pol, _ in gs)
-        nonempty_before = any((not pol) and flag_zero_test(e, 'previous_flags') for e, pol, _ in gs)
-        extra = [unparse(e) for e, pol, _ in gs if not (flag_zero_test(e, 'tracked_user.flags') or flag_zero_test(e, 'previous_flags') or const(e) is True)]
+        empty_now = any(pol and flag_zero_test(e, FLAGS) for e, pol, _ in gs)
+        nonempty_before = any((not pol) and flag_zero_test(e, PREV) for e, pol, _ in gs)
+        extra = [unparse(e) for e, pol, _ in gs if not (flag_zero_test(e, FLAGS) or flag_zero_test(e, PREV) or const(e) is True)]
         ck.ob('R-C15-EDGES', tt, c, 'RemoveUser is sent exactly when the reason set goes from non-empty to empty '
               '(flags == 0 and previous_flags != 0, nothing else)', empty_now and nonempty_before and not extra,
               f'guards {[ (unparse(e), p) for e, p, _ in gs]}', construct='untrack edge')
     for c in trk:
         gs = eng.guards_at(tt, c)
-        nonempty_now = any((not pol) and flag_zero_test(e, 'tracked_user.flags') for e, pol, _ in gs)
+        nonempty_now = any((not pol) and flag_zero_test(e, FLAGS) for e, pol, _ in gs)
         disj = [e for e, pol, _ in gs if pol and isinstance(e, ast.BoolOp) and isinstance(e.op, ast.Or)]
-        edge = any(len(d.values) == 2 and any(flag_zero_test(v, 'previous_flags') for v in d.values) and any(unparse(v) == 'is_retry' for v in d.values)
+        edge = any(len(d.values) == 2 and any(flag_zero_test(v, PREV) for v in d.values) and any(RETRY is not None and unparse(v) == RETRY for v in d.values)
                    for d in disj)
-        extra = [unparse(e) for e, pol, _ in gs if not (flag_zero_test(e, 'tracked_user.flags') or e in disj or const(e) is True)]
+        extra = [unparse(e) for e, pol, _ in gs if not (flag_zero_test(e, FLAGS) or e in disj or const(e) is True)]
         ck.ob('R-C15-EDGES', tt, c, 'AddUser is sent exactly when the reason set goes from empty to non-empty, or on a retry while a reason remains',
               nonempty_now and edge and not extra, f'guards {[(unparse(e), p) for e, p, _ in gs]}', construct='track edge')
     sa = single_assignments(tt)
     c = eng.cfg(tt)
-    pf = [n for n in walk_local(tt.node) if isinstance(n, ast.Assign) and unparse(n.targets[0]) == 'previous_flags']
+    pf = [n for n in walk_local(tt.node) if isinstance(n, ast.Assign) and unparse(n.targets[0]) == PREV]
     op = [x for x in calls_in(tt.node) if unparse(x.func) == 'request.operation']
-    ok = len(pf) == 1 and len(op) == 1 and unparse(pf[0].value) == 'tracked_user.flags' and unparse(op[0].args[0]) == 'request.flag'
+    ok = len(pf) == 1 and len(op) == 1 and unparse(pf[0].value) == FLAGS and unparse(op[0].args[0]) == 'request.flag'
     if ok:
         pn, on = c.nodes_for(pf[0])[0], c.nodes_for(op[0])[0]
         ok = pn in c.dominators()[on] and c.suspension_between(pn, on) is None
     ck.ob('R-C15-EDGES', tt, tt.node, 'previous_flags is read immediately before the operation is applied (no suspension in between)', ok, '',
           construct='previous flags snapshot')
-    ir = sa.get('is_retry')
-    ck.ob('R-C15-EDGES', tt, tt.node, 'a retry is the request carrying the empty flag', ir is not None and flag_zero_test(ir, 'request.flag') is True,
-          unparse(ir), construct='is_retry definition')
+    retry_like = [k_ for k_ in sa if 'retry' in k_.lower()]
+    ck.ob('R-C15-EDGES', tt, tt.node, 'a retry is the request carrying the empty flag', RETRY is not None,
+          f'no local is defined as `{REQ}.flag == TrackingFlag(0)`; retry-like locals: ' + str({k_: unparse(sa[k_]) for k_ in retry_like}), construct='is_retry definition')
     rr = eng.func(USERM, f'{UTM}._request_retry')
     reqs = [x for x in calls_in(rr.node) if call_name(x) == 'TrackingRequest']
-    ok = len(reqs) == 1 and unparse(reqs[0].args[1]) == 'TrackingFlag(0)' and unparse(reqs[0].args[0]) == 'tracked_user.add_flag' and \
+    ok = len(reqs) == 1 and is_zero_flag(reqs[0].args[1]) and unparse(reqs[0].args[0]) == f'{rr.params[1]}.add_flag' and \
         bool(calls_on(rr.node, 'put_nowait')) and any(call_name(x) == 'sleep' and unparse(x.args[0]) == rr.params[2] for x in calls_in(rr.node))
     ck.ob('R-C15-EDGES', rr, rr.node, 'the retry timer sleeps the given delay, then enqueues an add of the empty flag', ok, '', construct='retry request')
     # cancel of the retry timer whenever the set becomes empty
@@ -88,7 +108,7 @@ def run(eng: Engine, ck: Check):
     ck.floor('R-C15-EDGES.cancel', len(canc), 1)
     for x in canc:
         gs = eng.guards_at(tt, x)
-        only_empty = len(gs) >= 1 and all(flag_zero_test(e, 'tracked_user.flags') and pol or const(e) is True for e, pol, _ in gs)
+        only_empty = len(gs) >= 1 and all(flag_zero_test(e, FLAGS) and pol or const(e) is True for e, pol, _ in gs)
         ck.ob('R-C15-EDGES', tt, x, 'the pending retry is cancelled whenever the reason set becomes empty (under no further condition)', only_empty,
               f'guards {[(unparse(e), p) for e, p, _ in gs]}: a retry that survives an untrack fires AddUser for an abandoned attempt',
               construct='retry cancelled on empty')
@@ -124,7 +144,7 @@ def run(eng: Engine, ck: Check):
             ok = any(pol and unparse(e) == 'retry_timeout' for e, pol, _ in gs) and unparse(kw(x, 'retry_timeout')) == 'retry_timeout'
             ck.ob('R-C15-EDGES', tt, x, 'a failed attempt reports RETRY_PENDING and arms the retry with the delay of that outcome', ok, '', construct='RETRY_PENDING with delay')
         if st == 'UNTRACKED':
-            ok = any((not pol) and flag_zero_test(e, 'previous_flags') for e, pol, _ in gs)
+            ok = any((not pol) and flag_zero_test(e, PREV) for e, pol, _ in gs)
             ck.ob('R-C15-EDGES', tt, x, 'UNTRACKED is reported together with the RemoveUser', ok, '', construct='UNTRACKED with untrack')
     sst = eng.func(USERM, f'{UTM}._set_tracking_state')
     ct = [x for x in calls_in(sst.node) if call_name(x) == 'create_task' and '_request_retry' in unparse(x)]
@@ -145,7 +165,7 @@ def run(eng: Engine, ck: Check):
     for r in rets:
         gs = eng.guards_at(tt, r)
         emp = [a for e, pol, a in gs if pol and isinstance(e, ast.Call) and call_name(e) == 'empty' and 'queue' in unparse(e.func.value)]
-        zero = any(pol and flag_zero_test(e, 'tracked_user.flags') for e, pol, _ in gs)
+        zero = any(pol and flag_zero_test(e, FLAGS) for e, pol, _ in gs)
         ck.ob('R-C15-NOLOSS', tt, r, 'the worker exits only when no reason remains and its queue is empty', bool(emp) and zero,
               f'{[(unparse(e), p) for e, p, _ in gs]}', construct='worker exit condition')
         rn = c.nodes_for(r)[0]
